@@ -1,6 +1,949 @@
-//! C12 rig (see DESIGN.md section 3/C12) - filled in by the C12 check.
-use crate::util::Args;
+//! C12 (in-process part) — registry queries return exactly the live registrations; disconnect removes own only.
+//!
+//! A stand-alone `NamingActor` receives exactly the messages the gRPC instance handler, the HTTP open-api instance handlers
+//! (register / update / beat / delete), the console instance API and the connection manager (`RemoveClient`) send, from three
+//! gRPC connection ids and HTTP writers on overlapping (service, ip, port) keys. A reference model of the DOCUMENTED rules
+//! (see `expect_write` / `expect_dereg` / `expect_remove_client` / `expected_lists`) says which outcomes are allowed; where the
+//! rules leave a choice every allowed outcome is accepted and the model adopts what the code did. After every operation the
+//! touched instance is read back (`NamingCmd::Query`) and the four list queries are compared with the model for healthy-only
+//! on/off. The Raft round trip a real node performs for persistent instances (NotifyUpdateRaftInstance / NotifyRemoveRaftInstance
+//! -> raft -> NamingRaftReq applied on the same actor) is reproduced by the harness (`raft_echo`), because a stand-alone actor
+//! has no raft router; everything found that depends on it is re-checked against the real binary by lib/c12.py.
+use crate::c11::{meta_of, mk_ikey, pinst_of, PInst, Rig, Svc, ADDRS, GROUPS, NS, SVCS};
+use crate::util::{rng, Args, Report};
+use rand::rngs::StdRng;
+use rand::Rng;
+use rnacos::naming::core::{NamingCmd, NamingResult};
+use rnacos::naming::model::actor_model::{InstanceRegisterParam, NamingRaftReq};
+use rnacos::naming::model::{Instance, InstanceShortKey, InstanceUpdateTag, ServiceDetailDto};
+use serde::{Deserialize, Serialize};
+use serde_json::{json, Value};
+use std::collections::BTreeMap;
+use std::sync::Arc;
+use std::time::{Duration, Instant};
 
-pub fn run(_args: &Args) -> anyhow::Result<()> {
-    anyhow::bail!("not implemented")
+pub const CONNS: [&str; 3] = ["1_127.0.0.1:50001", "1_127.0.0.1:50002", "1_127.0.0.1:50003"];
+pub const THRESHOLDS: [f32; 4] = [0.0, 0.3, 0.8, 1.0];
+
+#[derive(Clone, Debug, Serialize, Deserialize)]
+pub enum COp {
+    GrpcReg { client: usize, svc: Svc, a: usize, healthy: bool, enabled: bool, ephemeral: bool, weight: f32, meta: u8 },
+    GrpcDereg { client: usize, svc: Svc, a: usize },
+    /// POST/PUT /nacos/v1/ns/instance (console=false) or the console instance API (console=true); None = parameter absent
+    HttpWrite { svc: Svc, a: usize, weight: Option<f32>, enabled: Option<bool>, ephemeral: Option<bool>, meta: Option<u8>, console: bool },
+    HttpBeat { svc: Svc, a: usize },
+    HttpDereg { svc: Svc, a: usize },
+    RemoveClient { client: usize },
+    Threshold { svc: Svc, th: f32 },
+    Sniff { svc: Svc, a: usize, success: bool },
+}
+
+impl COp {
+    fn kind(&self) -> &'static str {
+        match self {
+            COp::GrpcReg { .. } => "grpc-register",
+            COp::GrpcDereg { .. } => "grpc-deregister",
+            COp::HttpWrite { console: false, .. } => "http-write",
+            COp::HttpWrite { console: true, .. } => "console-write",
+            COp::HttpBeat { .. } => "http-beat",
+            COp::HttpDereg { .. } => "http-deregister",
+            COp::RemoveClient { .. } => "connection-end",
+            COp::Threshold { .. } => "set-threshold",
+            COp::Sniff { .. } => "health-probe",
+        }
+    }
+    /// operation family used in violation signatures (the open-api and the console write build the same kind of request)
+    fn sig_kind(&self) -> &'static str {
+        match self {
+            COp::HttpWrite { .. } => "http-write",
+            _ => self.kind(),
+        }
+    }
+    fn target(&self) -> Option<(Svc, usize)> {
+        match self {
+            COp::GrpcReg { svc, a, .. } | COp::GrpcDereg { svc, a, .. } | COp::HttpWrite { svc, a, .. } | COp::HttpBeat { svc, a } | COp::HttpDereg { svc, a } | COp::Sniff { svc, a, .. } => Some((*svc, *a)),
+            _ => None,
+        }
+    }
+    fn actor(&self) -> Option<usize> {
+        match self {
+            COp::GrpcReg { client, .. } | COp::GrpcDereg { client, .. } | COp::RemoveClient { client } => Some(*client),
+            _ => None,
+        }
+    }
+}
+
+// ---------------------------------------------------------------- reference model
+#[derive(Clone, Debug, PartialEq)]
+pub struct MInst {
+    pub owner: String,
+    pub ephemeral: bool,
+    pub enabled: bool,
+    pub healthy: bool,
+    pub weight: f32,
+}
+
+#[derive(Clone, Debug, Default)]
+pub struct MSvc {
+    pub exists: bool,
+    pub th: f32,
+    pub insts: BTreeMap<usize, MInst>,
+}
+
+#[derive(Clone, Debug, Default)]
+pub struct Model {
+    pub svcs: BTreeMap<Svc, MSvc>,
+}
+
+impl Model {
+    fn get(&self, svc: &Svc, a: usize) -> Option<&MInst> {
+        self.svcs.get(svc).and_then(|s| s.insts.get(&a))
+    }
+}
+
+fn minst_of(p: &PInst) -> MInst {
+    MInst { owner: p.client.clone(), ephemeral: p.ephemeral, enabled: p.enabled, healthy: p.healthy, weight: p.weight }
+}
+
+/// prior state class of an instance relative to the acting connection
+fn class_of(m: Option<&MInst>, actor: Option<&str>) -> String {
+    match m {
+        None => "absent".into(),
+        Some(i) => format!(
+            "{}-{}",
+            if i.ephemeral { "ephemeral" } else { "persistent" },
+            if i.owner.is_empty() {
+                "http"
+            } else if Some(i.owner.as_str()) == actor {
+                "owned-by-acting-connection"
+            } else {
+                "owned-by-other-connection"
+            }
+        ),
+    }
+}
+
+/// allowed outcomes for one instance after an operation; an empty vector = "any"
+#[derive(Debug, Default)]
+struct Expect {
+    exists: Option<bool>,
+    owner: Vec<String>,
+    ephemeral: Vec<bool>,
+    enabled: Vec<bool>,
+    healthy: Vec<bool>,
+    weight: Vec<f32>,
+    /// owner rule that depends on the resulting ephemeral flag: (owner required when the result is ephemeral)
+    owner_if_ephemeral: Option<String>,
+    is_new: bool,
+}
+
+fn expect_write(op: &COp, old: Option<&MInst>) -> Expect {
+    let mut e = Expect { exists: Some(true), ..Default::default() };
+    match op {
+        COp::GrpcReg { client, healthy, enabled, ephemeral, weight, .. } => {
+            let c = CONNS[*client].to_string();
+            match old {
+                None => {
+                    // a newly registered instance carries the ephemeral flag, enabled flag and weight it was registered with
+                    e.is_new = true;
+                    e.ephemeral = vec![*ephemeral];
+                    e.enabled = vec![*enabled];
+                    e.weight = vec![*weight];
+                    e.healthy = vec![*healthy];
+                    e.owner_if_ephemeral = Some(c.clone());
+                    e.owner = vec![c, String::new()]; // persistent: ownership may move to the raft state
+                }
+                Some(o) => {
+                    // re-registration: last registration wins; flags kept by the update-tag heuristics are tolerated
+                    e.ephemeral = vec![*ephemeral, o.ephemeral];
+                    e.enabled = vec![*enabled, o.enabled];
+                    e.weight = vec![*weight, o.weight];
+                    e.healthy = vec![*healthy];
+                    e.owner_if_ephemeral = Some(c.clone());
+                    e.owner = vec![c, String::new(), o.owner.clone()];
+                }
+            }
+        }
+        COp::HttpWrite { weight, enabled, ephemeral, console, .. } => match old {
+            None => {
+                e.is_new = true;
+                e.ephemeral = vec![ephemeral.unwrap_or(true)];
+                e.enabled = vec![enabled.unwrap_or(true)];
+                e.weight = vec![weight.unwrap_or(1.0)];
+                e.healthy = vec![true];
+                e.owner = vec![String::new()];
+            }
+            Some(o) => {
+                e.ephemeral = vec![ephemeral.unwrap_or(o.ephemeral)];
+                e.enabled = vec![enabled.unwrap_or(o.enabled)];
+                e.weight = match weight {
+                    Some(w) if *w == 1.0 && !*console => vec![*w, o.weight],
+                    Some(w) => vec![*w],
+                    None => vec![o.weight],
+                };
+                e.healthy = vec![true, o.healthy];
+                // an HTTP ephemeral write onto a gRPC-owned instance keeps the gRPC owner
+                e.owner_if_ephemeral = Some(o.owner.clone());
+                e.owner = vec![o.owner.clone(), String::new()];
+            }
+        },
+        COp::HttpBeat { .. } => match old {
+            None => {
+                e.exists = None; // a beat for an unknown instance: the property is silent
+            }
+            Some(o) => {
+                e.ephemeral = vec![o.ephemeral];
+                e.enabled = vec![o.enabled];
+                e.weight = vec![o.weight];
+                e.healthy = vec![true, o.healthy];
+                e.owner = vec![o.owner.clone()];
+            }
+        },
+        _ => {}
+    }
+    e
+}
+
+/// Some(true) = must still exist, Some(false) = must be gone, None = either
+fn expect_dereg(by: &str, old: Option<&MInst>) -> Option<bool> {
+    match old {
+        None => Some(false),
+        Some(o) if o.ephemeral => {
+            if by.is_empty() || by == o.owner {
+                Some(false)
+            } else {
+                Some(true) // an ephemeral instance can only be removed by its owner (or by an empty client id)
+            }
+        }
+        Some(_) => None, // persistent: the property is silent
+    }
+}
+
+// ---------------------------------------------------------------- actor side
+fn base_instance(svc: &Svc, a: usize) -> Instance {
+    let mut i = Instance::new(ADDRS[a].0.to_string(), ADDRS[a].1);
+    i.namespace_id = Arc::new(NS[svc.ns].to_string());
+    i.group_name = Arc::new(GROUPS[svc.g].to_string());
+    i.service_name = Arc::new(SVCS[svc.s].to_string());
+    i.generate_key();
+    i
+}
+
+/// exactly what the handlers build (src/grpc/handler/naming_instance.rs, src/openapi/naming/instance.rs, src/console/v2/naming_api.rs)
+fn to_cmd(op: &COp) -> Option<(NamingCmd, Option<InstanceUpdateTag>)> {
+    match op {
+        COp::GrpcReg { client, svc, a, healthy, enabled, ephemeral, weight, meta } => {
+            let mut i = base_instance(svc, *a);
+            i.healthy = *healthy;
+            i.enabled = *enabled;
+            i.ephemeral = *ephemeral;
+            i.weight = *weight;
+            i.metadata = Arc::new(meta_of(*meta));
+            i.from_grpc = true;
+            i.client_id = Arc::new(CONNS[*client].to_string());
+            let tag = InstanceUpdateTag { weight: i.weight != 1.0, metadata: true, enabled: !i.enabled, ephemeral: false, from_update: false };
+            Some((NamingCmd::Update(i, Some(tag.clone())), Some(tag)))
+        }
+        COp::GrpcDereg { client, svc, a } => {
+            let mut i = base_instance(svc, *a);
+            i.from_grpc = true;
+            i.client_id = Arc::new(CONNS[*client].to_string());
+            Some((NamingCmd::Delete(i), None))
+        }
+        COp::HttpWrite { svc, a, weight, enabled, ephemeral, meta, console } => {
+            let mut i = base_instance(svc, *a);
+            i.weight = weight.unwrap_or(1.0);
+            i.enabled = enabled.unwrap_or(true);
+            i.healthy = true;
+            i.ephemeral = ephemeral.unwrap_or(true);
+            i.metadata = Arc::new(meta_of(meta.unwrap_or(0)));
+            let tag = if *console {
+                InstanceUpdateTag { weight: weight.is_some(), metadata: meta.is_some(), enabled: enabled.is_some(), ephemeral: ephemeral.is_some(), from_update: true }
+            } else {
+                InstanceUpdateTag { weight: weight.map(|w| w != 1.0).unwrap_or(false), metadata: meta.map(|m| m > 0).unwrap_or(false), enabled: enabled.is_some(), ephemeral: ephemeral.is_some(), from_update: true }
+            };
+            Some((NamingCmd::Update(i, Some(tag.clone())), Some(tag)))
+        }
+        COp::HttpBeat { svc, a } => {
+            let i = base_instance(svc, *a);
+            let tag = InstanceUpdateTag { weight: false, metadata: false, enabled: false, ephemeral: false, from_update: false };
+            Some((NamingCmd::Update(i, Some(tag.clone())), Some(tag)))
+        }
+        COp::HttpDereg { svc, a } => Some((NamingCmd::Delete(base_instance(svc, *a)), None)),
+        COp::RemoveClient { client } => Some((NamingCmd::RemoveClient(Arc::new(CONNS[*client].to_string())), None)),
+        COp::Threshold { svc, th } => Some((
+            NamingCmd::UpdateService(ServiceDetailDto {
+                namespace_id: Arc::new(NS[svc.ns].to_string()),
+                group_name: Arc::new(GROUPS[svc.g].to_string()),
+                service_name: Arc::new(SVCS[svc.s].to_string()),
+                metadata: None,
+                protect_threshold: Some(*th),
+                grpc_instance_count: None,
+            }),
+            None,
+        )),
+        COp::Sniff { svc, a, success } => Some((
+            NamingCmd::PerpetualHostSniffing { host: InstanceShortKey::new(Arc::new(ADDRS[*a].0.to_string()), ADDRS[*a].1), service_keys: vec![svc.key()], success: *success },
+            None,
+        )),
+    }
+}
+
+async fn query_one(rig: &Rig, svc: &Svc, a: usize) -> anyhow::Result<Option<Arc<Instance>>> {
+    match rig.cmd(NamingCmd::Query(base_instance(svc, a))).await? {
+        NamingResult::Instance(i) => Ok(Some(i)),
+        _ => Ok(None),
+    }
+}
+
+/// what a real node does after the write through NamingCmd::NotifyUpdateRaftInstance / NotifyRemoveRaftInstance -> raft -> apply
+/// (Service::update_instance's UpdatePerpetualType, src/naming/service.rs:185-231; NamingActor::update_instance core.rs:511-527)
+async fn raft_echo(rig: &Rig, svc: &Svc, a: usize, old: Option<&Arc<Instance>>, tag: &InstanceUpdateTag, rep: &mut BTreeMap<String, u64>) -> anyhow::Result<()> {
+    let new = match query_one(rig, svc, a).await? {
+        Some(n) => n,
+        None => return Ok(()),
+    };
+    let kind = match old {
+        None => {
+            if !new.ephemeral {
+                "new"
+            } else {
+                ""
+            }
+        }
+        Some(o) => {
+            let mut changed = false;
+            if !tag.is_none() {
+                changed = (tag.enabled && o.enabled != new.enabled) || (tag.weight && o.weight != new.weight) || (tag.metadata && tag.from_update);
+            }
+            if !new.ephemeral && o.ephemeral {
+                "new"
+            } else if new.ephemeral && !o.ephemeral {
+                "remove"
+            } else if !new.ephemeral && changed {
+                "update"
+            } else {
+                ""
+            }
+        }
+    };
+    match kind {
+        "new" | "update" => {
+            let param: InstanceRegisterParam = new.as_ref().into();
+            rig.addr.send(NamingRaftReq::UpdateInstance { param }).await.map_err(|e| anyhow::anyhow!("mailbox {}", e))?.ok();
+            *rep.entry("raft_echo_update".into()).or_insert(0) += 1;
+        }
+        "remove" => {
+            rig.addr.send(NamingRaftReq::RemoveInstance(mk_ikey(svc, a))).await.map_err(|e| anyhow::anyhow!("mailbox {}", e))?.ok();
+            *rep.entry("raft_echo_remove".into()).or_insert(0) += 1;
+        }
+        _ => {}
+    }
+    Ok(())
+}
+
+// ---------------------------------------------------------------- list expectations
+fn reached(h: usize, t: usize, th: f32) -> bool {
+    let th = if th <= 0.0 { 0.0 } else { th };
+    (h as f32) / (t as f32) <= th
+}
+
+/// allowed results (address -> healthy flag as returned) + whether the protection threshold counts as reached
+fn expected_lists(ms: &MSvc, healthy_only: bool) -> Vec<(bool, BTreeMap<usize, bool>)> {
+    let enabled: Vec<(usize, bool)> = ms.insts.iter().filter(|(_, i)| i.enabled).map(|(a, i)| (*a, i.healthy)).collect();
+    let h1 = enabled.iter().filter(|x| x.1).count();
+    let mut defs = vec![];
+    if ms.exists {
+        defs.push(reached(h1, enabled.len(), ms.th)); // the code's definition: ratio over the enabled instances
+        let hall = ms.insts.values().filter(|i| i.healthy).count();
+        defs.push(reached(hall, ms.insts.len(), ms.th)); // tolerated alternative: ratio over all registered instances
+    } else {
+        defs.push(false);
+    }
+    let mut out: Vec<(bool, BTreeMap<usize, bool>)> = vec![];
+    for r in defs {
+        let m: BTreeMap<usize, bool> = if r {
+            enabled.iter().map(|(a, _)| (*a, true)).collect()
+        } else if healthy_only {
+            enabled.iter().filter(|x| x.1).cloned().collect()
+        } else {
+            enabled.iter().cloned().collect()
+        };
+        if !out.iter().any(|(r2, m2)| *r2 == r && *m2 == m) {
+            out.push((r, m));
+        }
+    }
+    out
+}
+
+struct Row {
+    a: usize,
+    healthy: bool,
+    enabled: Option<bool>,
+    ephemeral: Option<bool>,
+    weight: f32,
+}
+
+fn rows_of(list: &[Arc<Instance>]) -> Vec<Row> {
+    list.iter()
+        .map(|i| Row { a: ADDRS.iter().position(|x| x.0 == i.ip.as_str() && x.1 == i.port).unwrap_or(usize::MAX), healthy: i.healthy, enabled: Some(i.enabled), ephemeral: Some(i.ephemeral), weight: i.weight })
+        .collect()
+}
+
+fn th_name(ms: &MSvc) -> String {
+    if !ms.exists {
+        "none".into()
+    } else {
+        format!("{}", ms.th)
+    }
+}
+
+/// compare one query result with the model; returns (symptom, detail)
+fn check_rows(ms: &MSvc, healthy_only: bool, rows: &[Row], flag: Option<bool>) -> Option<(String, Value)> {
+    let mut got: BTreeMap<usize, bool> = BTreeMap::new();
+    for r in rows {
+        if got.insert(r.a, r.healthy).is_some() {
+            return Some(("address-returned-twice".into(), json!({"addr": r.a})));
+        }
+    }
+    for r in rows {
+        match ms.insts.get(&r.a) {
+            None => return Some(("unregistered-or-deregistered-instance-returned".into(), json!({"addr": ADDRS.get(r.a)}))),
+            Some(i) if !i.enabled => return Some(("disabled-instance-returned".into(), json!({"addr": ADDRS.get(r.a)}))),
+            Some(i) => {
+                if r.ephemeral.map(|e| e != i.ephemeral).unwrap_or(false) || r.enabled.map(|e| e != i.enabled).unwrap_or(false) || r.weight != i.weight {
+                    return Some(("returned-instance-differs-from-registration".into(), json!({"addr": ADDRS.get(r.a), "returned": {"ephemeral": r.ephemeral, "enabled": r.enabled, "weight": r.weight}, "registered": {"ephemeral": i.ephemeral, "enabled": i.enabled, "weight": i.weight}})));
+                }
+            }
+        }
+    }
+    let alts = expected_lists(ms, healthy_only);
+    for (r, m) in &alts {
+        if *m == got && flag.map(|f| f == *r).unwrap_or(true) {
+            return None;
+        }
+    }
+    // classify against the code's own definition (first alternative)
+    let (r0, m0) = &alts[0];
+    let detail = json!({"returned": got.iter().map(|(a, h)| json!([ADDRS.get(*a), h])).collect::<Vec<_>>(), "allowed": alts.iter().map(|(r, m)| json!({"threshold_reached": r, "hosts": m.iter().map(|(a, h)| json!([ADDRS.get(*a), h])).collect::<Vec<_>>()})).collect::<Vec<_>>(),
+        "registered": ms.insts.iter().map(|(a, i)| json!({"addr": ADDRS.get(*a), "enabled": i.enabled, "healthy": i.healthy, "ephemeral": i.ephemeral, "owner": i.owner})).collect::<Vec<_>>(), "reach_flag": flag});
+    for (a, _) in m0 {
+        if !got.contains_key(a) {
+            let sym = if *r0 && !ms.insts[a].healthy { "threshold-reached-but-unhealthy-instance-filtered-out" } else { "registered-instance-missing-from-result" };
+            return Some((sym.into(), detail));
+        }
+    }
+    for (a, h) in &got {
+        match m0.get(a) {
+            None => return Some(("unhealthy-instance-returned-under-healthy-only-below-threshold".into(), detail)),
+            Some(h0) if h0 != h => return Some(("healthy-flag-differs".into(), detail)),
+            _ => {}
+        }
+    }
+    Some(("reach-protection-threshold-flag-differs".into(), detail))
+}
+
+async fn check_service(rig: &Rig, svc: &Svc, ms: &MSvc, full: bool, rep: &mut Out) -> anyhow::Result<()> {
+    let key = svc.key();
+    for healthy_only in [false, true] {
+        if !full && healthy_only {
+            continue;
+        }
+        // QueryInstancePage, walked with page size 2
+        let mut rows: Vec<Arc<Instance>> = vec![];
+        let mut total = 0;
+        for page in 1..=4 {
+            if let NamingResult::InstanceInfoPage((t, l)) = rig.cmd(NamingCmd::QueryInstancePage { service_key: key.clone(), cluster: String::new(), only_healthy: healthy_only, page_size: 2, page_index: page }).await? {
+                total = t;
+                rows.extend(l);
+            }
+            if rows.len() >= total {
+                break;
+            }
+        }
+        rep.queries += 1;
+        let mut res = check_rows(ms, healthy_only, &rows_of(&rows), None);
+        if res.is_none() && total != rows.len() {
+            res = Some(("page-total-differs-from-rows".into(), json!({"total": total, "rows": rows.len()})));
+        }
+        rep.query_result("QueryInstancePage", svc, ms, healthy_only, res);
+        if !full {
+            continue;
+        }
+        if let NamingResult::InstanceList(l) = rig.cmd(NamingCmd::QueryList(key.clone(), String::new(), healthy_only, None)).await? {
+            rep.queries += 1;
+            let res = check_rows(ms, healthy_only, &rows_of(&l), None);
+            rep.query_result("QueryList", svc, ms, healthy_only, res);
+        }
+        if let NamingResult::InstanceListString(sv) = rig.cmd(NamingCmd::QueryListString(key.clone(), String::new(), healthy_only, None)).await? {
+            rep.queries += 1;
+            let v: Value = serde_json::from_str(&sv).unwrap_or(Value::Null);
+            let rows: Vec<Row> = v["hosts"]
+                .as_array()
+                .cloned()
+                .unwrap_or_default()
+                .iter()
+                .map(|h| Row {
+                    a: ADDRS.iter().position(|x| Some(x.0) == h["ip"].as_str() && Some(x.1 as u64) == h["port"].as_u64()).unwrap_or(usize::MAX),
+                    healthy: h["healthy"].as_bool().unwrap_or(false),
+                    enabled: h["enabled"].as_bool(),
+                    ephemeral: h["ephemeral"].as_bool(),
+                    weight: h["weight"].as_f64().unwrap_or(-1.0) as f32,
+                })
+                .collect();
+            let res = check_rows(ms, healthy_only, &rows, None);
+            rep.query_result("QueryListString", svc, ms, healthy_only, res);
+        }
+        if let NamingResult::ServiceInfo(info) = rig.cmd(NamingCmd::QueryServiceInfo(key.clone(), String::new(), healthy_only)).await? {
+            rep.queries += 1;
+            let hosts = info.hosts.clone().unwrap_or_default();
+            let res = check_rows(ms, healthy_only, &rows_of(&hosts), Some(info.reach_protection_threshold));
+            rep.query_result("QueryServiceInfo", svc, ms, healthy_only, res);
+        }
+    }
+    Ok(())
+}
+
+// ---------------------------------------------------------------- one history
+#[derive(Default)]
+pub struct Out {
+    pub steps: u64,
+    pub queries: u64,
+    pub shapes: BTreeMap<String, u64>,
+    pub counters: BTreeMap<String, u64>,
+    /// (signature, index of the operation, detail)
+    pub violations: Vec<(String, usize, Value)>,
+    pub harness_error: Option<String>,
+    cur_op: usize,
+}
+
+impl Out {
+    fn query_result(&mut self, q: &str, svc: &Svc, ms: &MSvc, healthy_only: bool, res: Option<(String, Value)>) {
+        let enabled = ms.insts.values().filter(|i| i.enabled).count();
+        let unhealthy = ms.insts.values().filter(|i| i.enabled && !i.healthy).count();
+        let disabled = ms.insts.len() - enabled;
+        let alts = expected_lists(ms, healthy_only);
+        match res {
+            None => {
+                if !ms.insts.is_empty() {
+                    let shape = format!(
+                        "query/{}/healthy_only={}/threshold={}/{}/{}{}{}",
+                        q,
+                        healthy_only,
+                        th_name(ms),
+                        if alts[0].0 { "reached" } else { "not-reached" },
+                        if unhealthy > 0 { "some-unhealthy" } else { "all-healthy" },
+                        if disabled > 0 { "+disabled" } else { "" },
+                        if alts.len() > 1 { "+definitions-differ" } else { "" }
+                    );
+                    *self.shapes.entry(shape).or_insert(0) += 1;
+                }
+            }
+            Some((sym, detail)) => {
+                // threshold value and instance mix are in the witness; the signature names query kind, symptom and healthy-only only
+                let sig = format!("inproc/query/{}/{}/healthy_only={}", q, sym, healthy_only);
+                self.violations.push((sig, self.cur_op, json!({"service": svc.name(), "detail": detail})));
+            }
+        }
+    }
+}
+
+fn cmp_field<T: PartialEq + std::fmt::Debug>(allowed: &[T], got: &T) -> bool {
+    allowed.is_empty() || allowed.iter().any(|x| x == got)
+}
+
+pub async fn run_history(ops_in: Option<Vec<COp>>, seed: u64, n: usize) -> (Vec<COp>, Out) {
+    let mut out = Out::default();
+    let mut ops = vec![];
+    let r = run_inner(ops_in, seed, n, &mut ops, &mut out).await;
+    if let Err(e) = r {
+        out.harness_error = Some(format!("{:?}", e));
+    }
+    (ops, out)
+}
+
+async fn run_inner(ops_in: Option<Vec<COp>>, seed: u64, n: usize, ops: &mut Vec<COp>, out: &mut Out) -> anyhow::Result<()> {
+    let rig = Rig::new(false).await;
+    let mut model = Model::default();
+    let mut g = Gen::new(seed);
+    let n = ops_in.as_ref().map(|v| v.len()).unwrap_or(n);
+    for step in 0..n {
+        let op = match &ops_in {
+            Some(v) => v[step].clone(),
+            None => g.op(&model),
+        };
+        ops.push(op.clone());
+        out.cur_op = step;
+        out.steps += 1;
+        let actor = op.actor().map(|c| CONNS[c]);
+        let kind = op.kind();
+        let (cmd, tag) = to_cmd(&op).unwrap();
+        match &op {
+            COp::GrpcReg { svc, a, .. } | COp::HttpWrite { svc, a, .. } | COp::HttpBeat { svc, a } => {
+                let old_m = model.get(svc, *a).cloned();
+                let pc = class_of(old_m.as_ref(), actor);
+                let exp = expect_write(&op, old_m.as_ref());
+                let old_real = query_one(&rig, svc, *a).await?;
+                rig.cmd(cmd).await?;
+                raft_echo(&rig, svc, *a, old_real.as_ref(), tag.as_ref().unwrap(), &mut out.counters).await?;
+                let got = query_one(&rig, svc, *a).await?.map(|i| pinst_of(&i));
+                let req_note = match &op {
+                    COp::HttpWrite { ephemeral, .. } => format!("[ephemeral={}]", ephemeral.map(|e| e.to_string()).unwrap_or_else(|| "unset".into())),
+                    COp::GrpcReg { ephemeral, .. } => format!("[ephemeral={}]", ephemeral),
+                    _ => String::new(),
+                };
+                let mut sym: Option<String> = None;
+                match (&got, exp.exists) {
+                    (None, Some(true)) => sym = Some("registered-instance-missing-after-write".into()),
+                    (Some(p), _) => {
+                        let fam = if exp.is_new { "new-instance" } else { "re-registration" };
+                        if !cmp_field(&exp.ephemeral, &p.ephemeral) {
+                            sym = Some(format!("{}-ephemeral-flag-differs", fam));
+                        } else if !cmp_field(&exp.enabled, &p.enabled) {
+                            sym = Some(format!("{}-enabled-flag-differs", fam));
+                        } else if !cmp_field(&exp.weight, &p.weight) {
+                            sym = Some(format!("{}-weight-differs", fam));
+                        } else if !cmp_field(&exp.healthy, &p.healthy) {
+                            sym = Some(format!("{}-healthy-flag-differs", fam));
+                        } else if p.ephemeral && exp.owner_if_ephemeral.as_ref().map(|o| o != &p.client).unwrap_or(false) {
+                            sym = Some(if matches!(op, COp::GrpcReg { .. }) { "grpc-registration-did-not-take-ownership".to_string() } else { "http-ephemeral-write-changed-grpc-ownership".to_string() });
+                        } else if !cmp_field(&exp.owner, &p.client) {
+                            sym = Some("unexpected-owner".into());
+                        }
+                    }
+                    _ => {}
+                }
+                *out.shapes.entry(format!("op/{}{}@{}", kind, req_note, pc)).or_insert(0) += 1;
+                if let Some(sym) = sym {
+                    out.violations.push((format!("inproc/{}/{}{}@{}", sym, op.sig_kind(), req_note, pc), step, json!({"op": op, "model_before": old_m.as_ref().map(|m| format!("{:?}", m)), "allowed": format!("{:?}", exp), "observed": got.as_ref().map(|p| format!("{:?}", p))})));
+                }
+                // adopt what the code did
+                let ms = model.svcs.entry(*svc).or_default();
+                ms.exists = true;
+                match got {
+                    Some(p) => {
+                        ms.insts.insert(*a, minst_of(&p));
+                    }
+                    None => {
+                        ms.insts.remove(a);
+                    }
+                }
+            }
+            COp::GrpcDereg { svc, a, .. } | COp::HttpDereg { svc, a } => {
+                let by = actor.unwrap_or("");
+                let old_m = model.get(svc, *a).cloned();
+                let pc = class_of(old_m.as_ref(), actor);
+                let exp = expect_dereg(by, old_m.as_ref());
+                rig.cmd(cmd).await?;
+                let got = query_one(&rig, svc, *a).await?.map(|i| pinst_of(&i));
+                *out.shapes.entry(format!("op/{}@{}/{}", kind, pc, if got.is_some() { "kept" } else { "gone" })).or_insert(0) += 1;
+                let sym = match (exp, &got) {
+                    (Some(true), None) => Some("ephemeral-instance-removed-by-foreign-client"),
+                    (Some(false), Some(_)) => Some("deregistered-instance-still-registered"),
+                    (Some(true), Some(p)) if Some(minst_of(p)) != old_m => Some("refused-deregistration-changed-the-instance"),
+                    _ => None,
+                };
+                if let Some(sym) = sym {
+                    out.violations.push((format!("inproc/{}/{}@{}", sym, kind, pc), step, json!({"op": op, "model_before": old_m.as_ref().map(|m| format!("{:?}", m)), "observed": got.as_ref().map(|p| format!("{:?}", p))})));
+                }
+                if let Some(ms) = model.svcs.get_mut(svc) {
+                    match got {
+                        Some(p) => {
+                            ms.insts.insert(*a, minst_of(&p));
+                        }
+                        None => {
+                            ms.insts.remove(a);
+                        }
+                    }
+                }
+            }
+            COp::RemoveClient { client } => {
+                let c = CONNS[*client];
+                rig.cmd(cmd).await?;
+                let mut own = 0;
+                let keys: Vec<(Svc, usize, MInst)> = model.svcs.iter().flat_map(|(s, ms)| ms.insts.iter().map(move |(a, i)| (*s, *a, i.clone()))).collect();
+                for (svc, a, m) in keys {
+                    let got = query_one(&rig, &svc, a).await?.map(|i| pinst_of(&i));
+                    let must_go = m.ephemeral && m.owner == c;
+                    if must_go {
+                        own += 1;
+                    }
+                    let pc = class_of(Some(&m), Some(c));
+                    let sym = match (&got, must_go) {
+                        (Some(_), true) => Some("connection-end-left-own-ephemeral-instance".to_string()),
+                        (None, false) => Some(format!("connection-end-removed-{}-instance", if !m.ephemeral { "persistent" } else if m.owner.is_empty() { "http" } else { "other-connections" })),
+                        (Some(p), false) if {
+                            // a persistent instance may lose the closing connection as its owner, nothing else may change
+                            let mut now = minst_of(p);
+                            if !m.ephemeral && m.owner == c && now.owner.is_empty() {
+                                now.owner = m.owner.clone();
+                            }
+                            now != m
+                        } =>
+                        {
+                            Some("connection-end-changed-foreign-instance".to_string())
+                        }
+                        _ => None,
+                    };
+                    if let Some(sym) = sym {
+                        out.violations.push((format!("inproc/{}/{}@{}", sym, kind, pc), step, json!({"op": op, "instance": {"service": svc.name(), "addr": ADDRS[a]}, "model_before": format!("{:?}", m), "observed": got.as_ref().map(|p| format!("{:?}", p))})));
+                    }
+                    let ms = model.svcs.get_mut(&svc).unwrap();
+                    match got {
+                        Some(p) => {
+                            ms.insts.insert(a, minst_of(&p));
+                        }
+                        None => {
+                            ms.insts.remove(&a);
+                        }
+                    }
+                }
+                let others = model.svcs.values().flat_map(|ms| ms.insts.values()).count();
+                *out.shapes.entry(format!("op/{}/own={}/others-left={}", kind, own.min(3), others.min(3))).or_insert(0) += 1;
+                *out.counters.entry("connection_end_removed_own_instances".into()).or_insert(0) += own as u64;
+            }
+            COp::Threshold { svc, th } => {
+                rig.cmd(cmd).await?;
+                let ms = model.svcs.entry(*svc).or_default();
+                ms.exists = true;
+                ms.th = *th;
+                *out.shapes.entry(format!("op/{}={}", kind, th)).or_insert(0) += 1;
+            }
+            COp::Sniff { svc, a, success } => {
+                let old_m = model.get(svc, *a).cloned();
+                rig.cmd(cmd).await?;
+                let got = query_one(&rig, svc, *a).await?.map(|i| pinst_of(&i));
+                let sym = match (&old_m, &got) {
+                    (Some(_), None) => Some("registered-instance-missing-after-health-probe"),
+                    (None, Some(_)) => Some("health-probe-created-an-instance"),
+                    (Some(o), Some(p)) => {
+                        let mut o2 = o.clone();
+                        o2.healthy = p.healthy;
+                        if minst_of(p) != o2 || !(p.healthy == o.healthy || p.healthy == *success) {
+                            Some("health-probe-changed-more-than-health")
+                        } else {
+                            None
+                        }
+                    }
+                    _ => None,
+                };
+                if let Some(sym) = sym {
+                    out.violations.push((format!("inproc/{}/{}", sym, kind), step, json!({"op": op, "model_before": old_m.as_ref().map(|m| format!("{:?}", m)), "observed": got.as_ref().map(|p| format!("{:?}", p))})));
+                }
+                if let (Some(ms), Some(p)) = (model.svcs.get_mut(svc), got) {
+                    if ms.insts.contains_key(a) {
+                        ms.insts.insert(*a, minst_of(&p));
+                    }
+                }
+            }
+        }
+        // ---- queries: the touched service(s) with all four query kinds and both healthy-only settings, the others lightly
+        let touched: Vec<Svc> = match op.target() {
+            Some((s, _)) => vec![s],
+            None => match &op {
+                COp::Threshold { svc, .. } => vec![*svc],
+                _ => model.svcs.keys().cloned().collect(),
+            },
+        };
+        let empty = MSvc::default();
+        for svc in Svc::all() {
+            let ms = model.svcs.get(&svc).unwrap_or(&empty);
+            let full = touched.contains(&svc);
+            if !full && step % 7 != 0 {
+                continue;
+            }
+            check_service(&rig, &svc, ms, full, out).await?;
+        }
+        if out.violations.len() >= 6 {
+            break;
+        }
+    }
+    Ok(())
+}
+
+// ---------------------------------------------------------------- generator
+pub struct Gen {
+    r: StdRng,
+    hot: Vec<Svc>,
+}
+
+impl Gen {
+    pub fn new(seed: u64) -> Gen {
+        let mut r = rng(seed);
+        let all = Svc::all();
+        let n_hot = r.gen_range(1..=3);
+        let hot = (0..n_hot).map(|_| all[r.gen_range(0..all.len())]).collect();
+        Gen { r, hot }
+    }
+    fn svc(&mut self) -> Svc {
+        if self.r.gen_bool(0.85) {
+            self.hot[self.r.gen_range(0..self.hot.len())]
+        } else {
+            let all = Svc::all();
+            all[self.r.gen_range(0..all.len())]
+        }
+    }
+    fn addr(&mut self) -> usize {
+        if self.r.gen_bool(0.7) {
+            self.r.gen_range(0..3)
+        } else {
+            self.r.gen_range(0..ADDRS.len())
+        }
+    }
+    fn present(&mut self, m: &Model) -> Option<(Svc, usize, MInst)> {
+        let v: Vec<(Svc, usize, MInst)> = m.svcs.iter().flat_map(|(s, ms)| ms.insts.iter().map(move |(a, i)| (*s, *a, i.clone()))).collect();
+        if v.is_empty() {
+            None
+        } else {
+            Some(v[self.r.gen_range(0..v.len())].clone())
+        }
+    }
+    fn opt<T: Copy>(&mut self, p: f64, vals: &[T]) -> Option<T> {
+        if self.r.gen_bool(p) {
+            Some(vals[self.r.gen_range(0..vals.len())])
+        } else {
+            None
+        }
+    }
+    pub fn op(&mut self, m: &Model) -> COp {
+        let x = self.r.gen_range(0..100);
+        match x {
+            0..=29 => {
+                let (svc, a) = match self.present(m) {
+                    Some((s, a, _)) if self.r.gen_bool(0.35) => (s, a), // re-registration of an address (maybe by another client)
+                    _ => (self.svc(), self.addr()),
+                };
+                COp::GrpcReg { client: self.r.gen_range(0..3), svc, a, healthy: self.r.gen_bool(0.7), enabled: self.r.gen_bool(0.85), ephemeral: self.r.gen_bool(0.85), weight: *crate::util::pick(&mut self.r, &[1.0f32, 1.0, 2.0, 0.5]), meta: self.r.gen_range(0..3) }
+            }
+            30..=49 => {
+                let (svc, a) = match self.present(m) {
+                    Some((s, a, _)) if self.r.gen_bool(0.5) => (s, a),
+                    _ => (self.svc(), self.addr()),
+                };
+                COp::HttpWrite { svc, a, weight: self.opt(0.4, &[1.0f32, 2.0, 0.5]), enabled: self.opt(0.4, &[true, false, false]), ephemeral: self.opt(0.45, &[true, false]), meta: self.opt(0.4, &[0u8, 1, 2]), console: self.r.gen_bool(0.35) }
+            }
+            50..=54 => match self.present(m) {
+                Some((s, a, _)) if self.r.gen_bool(0.8) => COp::HttpBeat { svc: s, a },
+                _ => COp::HttpBeat { svc: self.svc(), a: self.addr() },
+            },
+            55..=69 => {
+                // deregistration with matching / foreign client id
+                match self.present(m) {
+                    Some((s, a, i)) if self.r.gen_bool(0.85) => {
+                        let owner = CONNS.iter().position(|c| *c == i.owner);
+                        let client = match owner {
+                            Some(o) if self.r.gen_bool(0.5) => o,
+                            _ => self.r.gen_range(0..3),
+                        };
+                        COp::GrpcDereg { client, svc: s, a }
+                    }
+                    _ => COp::GrpcDereg { client: self.r.gen_range(0..3), svc: self.svc(), a: self.addr() },
+                }
+            }
+            70..=76 => match self.present(m) {
+                Some((s, a, _)) if self.r.gen_bool(0.85) => COp::HttpDereg { svc: s, a },
+                _ => COp::HttpDereg { svc: self.svc(), a: self.addr() },
+            },
+            77..=86 => COp::RemoveClient { client: self.r.gen_range(0..3) },
+            87..=93 => COp::Threshold { svc: self.svc(), th: *crate::util::pick(&mut self.r, &THRESHOLDS) },
+            _ => match self.present(m) {
+                Some((s, a, _)) => COp::Sniff { svc: s, a, success: self.r.gen_bool(0.4) },
+                None => COp::Sniff { svc: self.svc(), a: self.addr(), success: false },
+            },
+        }
+    }
+}
+
+/// keep a sub-list if its LAST operation still shows the signature
+async fn shrink(ops: Vec<COp>, sig: &str, budget: Duration) -> Vec<COp> {
+    let t0 = Instant::now();
+    let mut cur = ops;
+    let mut chunk = cur.len() / 2;
+    while chunk >= 1 && t0.elapsed() < budget {
+        let mut i = 0;
+        let mut progressed = false;
+        while i < cur.len() && t0.elapsed() < budget {
+            let end = (i + chunk).min(cur.len().saturating_sub(1));
+            if end <= i {
+                break;
+            }
+            let mut cand = cur.clone();
+            cand.drain(i..end);
+            let (_, o) = run_history(Some(cand.clone()), 0, 0).await;
+            let last = cand.len() - 1;
+            if o.violations.iter().any(|(s, at, _)| s == sig && *at == last) {
+                cur = cand;
+                progressed = true;
+            } else {
+                i = end;
+            }
+        }
+        if !progressed {
+            chunk /= 2;
+        }
+    }
+    cur
+}
+
+pub fn run(args: &Args) -> anyhow::Result<()> {
+    let seed = args.u64("seed", 1);
+    let n_hist = args.u64("histories", 20);
+    let n_ops = args.u64("ops", 120) as usize;
+    let sys = actix_rt::System::new();
+    let mut rep = Report::default();
+    if let Some(path) = args.get("replay") {
+        let w: Value = serde_json::from_str(&std::fs::read_to_string(path)?)?;
+        let w = if w.get("witness").is_some() { w["witness"].clone() } else { w };
+        let ops: Vec<COp> = serde_json::from_value(w["ops"].clone())?;
+        let (_, o) = sys.block_on(run_history(Some(ops), 0, 0));
+        if let Some(e) = &o.harness_error {
+            println!("REPLAY harness-error {}", e);
+        }
+        for (s, at, d) in &o.violations {
+            println!("REPLAY reproduced signature={} at-op-index={} detail={}", s, at, d);
+        }
+        if o.violations.is_empty() {
+            println!("REPLAY not-reproduced steps={}", o.steps);
+        }
+        return Ok(());
+    }
+    sys.block_on(async {
+        let mut seen_sigs: Vec<String> = vec![];
+        for i in 0..n_hist {
+            let hs = seed.wrapping_mul(1_000_003).wrapping_add(i);
+            let (ops, o) = run_history(None, hs, n_ops).await;
+            rep.evaluations += o.steps + o.queries;
+            rep.count("inproc_operations", o.steps);
+            rep.count("inproc_queries_compared", o.queries);
+            rep.count("inproc_histories", 1);
+            for (k, v) in &o.shapes {
+                *rep.shapes.entry(format!("inproc/{}", k)).or_insert(0) += v;
+            }
+            for (k, v) in &o.counters {
+                rep.count(k, *v);
+            }
+            if let Some(e) = &o.harness_error {
+                rep.inconclusive.push(format!("in-process history seed {}: {}", hs, e));
+                continue;
+            }
+            for (sig, at, detail) in &o.violations {
+                if seen_sigs.contains(sig) {
+                    rep.violation(sig.clone(), Value::Null);
+                    continue;
+                }
+                seen_sigs.push(sig.clone());
+                let mut prefix = ops.clone();
+                prefix.truncate(at + 1);
+                let small = shrink(prefix, sig, Duration::from_secs(10)).await;
+                let (_, again) = run_history(Some(small.clone()), 0, 0).await;
+                let det = again.violations.iter().find(|(s, a, _)| s == sig && *a == small.len() - 1).map(|x| x.2.clone()).unwrap_or_else(|| detail.clone());
+                rep.violation(sig.clone(), json!({"rig": "in-process NamingActor", "history_seed": hs, "ops": small, "detail": det, "replay": "vh c12 --replay <this file>"}));
+            }
+            if o.violations.is_empty() && rep.samples.len() < 2 {
+                let first: Vec<&COp> = ops.iter().take(10).collect();
+                rep.sample(json!({"rig": "in-process NamingActor", "history_seed": hs, "operations": o.steps, "queries_compared": o.queries, "first_ops": first, "verdict": "every read-back and every query result was allowed by the reference model"}), 2);
+            }
+        }
+    });
+    rep.write(args)
 }
